@@ -187,6 +187,9 @@ func genField(t *rapid.T, sc *Scenario, allowed []string) Field {
 	if f.Store {
 		f.Value = genValue(t)
 	}
+	if nt == 0 {
+		f.NoIndex = rapid.Bool().Draw(t, "noIndex") // a stored-only instance
+	}
 	return f
 }
 
@@ -194,7 +197,7 @@ func genField(t *rapid.T, sc *Scenario, allowed []string) Field {
 // field ids need two-byte varints in the location streams and in the stored
 // meta data; locations name high-numbered fields.
 func GenBatchManyFields(t *rapid.T, sc *Scenario) Batch {
-	nNames := rapid.SampledFrom([]int{62, 63, 64, 65, 126, 127, 128, 129, 130, 200, 300}).Draw(t, "nFieldNames")
+	nNames := rapid.SampledFrom([]int{62, 63, 64, 65, 126, 127, 128, 129, 130, 200, 300, 511, 512, 513, 602, 1025}).Draw(t, "nFieldNames")
 	names := make([]string, nNames)
 	for i := range names {
 		names[i] = fmt.Sprintf("f%03d", i)
@@ -260,6 +263,18 @@ func GenBatchManyFields(t *rapid.T, sc *Scenario) Batch {
 			}
 		}
 		b = append(b, doc)
+	}
+	// sometimes a tail of bare documents with small stored values: several 128-document stored blocks in a
+	// segment with hundreds of fields
+	if tail := rapid.SampledFrom([]int{0, 0, 0, 130, 260}).Draw(t, "bareTail"); tail > 0 {
+		for i := 0; i < tail; i++ {
+			hi := hot[i%len(hot)]
+			f := Field{Name: names[hi], Len: 1, Terms: []Term{{T: fmt.Sprintf("t%d", i%5), Freq: 1}}, DV: sc.Schema["a"] == dvAlways && hi%2 == 0} // doc-value flags uniform per field
+			if i%3 == 0 {
+				f.Store, f.Value = true, fmt.Sprintf("tail-%d", i)
+			}
+			b = append(b, Doc{Fields: []Field{f}})
+		}
 	}
 	return b
 }
@@ -327,6 +342,23 @@ func GenBatchBig(t *rapid.T, sc *Scenario) Batch {
 	return b
 }
 
+// GenBatchGiant: 18..40 documents with 0.5-1 MiB incompressible stored values:
+// a data section beyond 16 MiB (and sometimes beyond 32 MiB).
+func GenBatchGiant(t *rapid.T, sc *Scenario) Batch {
+	size := rapid.SampledFrom([]int{512 << 10, 1 << 20}).Draw(t, "giantValueSize")
+	total := rapid.SampledFrom([]int{17 << 20, 18 << 20, 33 << 20, 70 << 20}).Draw(t, "giantTotal")
+	if total == 70<<20 {
+		size = 1 << 20 // 70 documents: ONE stored block of more than 64 MiB
+	}
+	n := total/size + 1
+	b := make(Batch, n)
+	for i := range b {
+		b[i].Fields = append(b[i].Fields, Field{Name: "a", Len: 1, DV: sc.Schema["a"] == dvAlways, Terms: []Term{{T: fmt.Sprintf("t%d", i%3), Freq: 1}}})
+		b[i].Fields = append(b[i].Fields, Field{Name: "title", Store: true, Value: incompressible(size, uint64(i+1)*uint64(size))})
+	}
+	return b
+}
+
 // fixLocFields enforces "a location's field name is empty or names a field
 // of the same batch" by construction.
 func fixLocFields(b Batch) {
@@ -364,6 +396,8 @@ type BlocksParams struct {
 	TwoVals   bool  // the storing doc also stores a second value in field "b"
 	StoreAll  int   // >0: every StoreAll-th doc stores a 1-byte value
 	LastShort bool  // keep the last document of every block bare
+	BigLen    int   // >0: one document stores a value of this many bytes (1 MiB+ / 4 MiB+: beyond any buffer threshold) ...
+	BigAt     int   // ... this document (drawn around the last slots of a 128-document block)
 }
 
 func GenBlocks(t *rapid.T) BlocksParams {
@@ -382,6 +416,14 @@ func GenBlocks(t *rapid.T) BlocksParams {
 	p.TwoVals = rapid.Bool().Draw(t, "twoVals")
 	p.StoreAll = rapid.SampledFrom([]int{0, 0, 5, 64}).Draw(t, "storeAll")
 	p.LastShort = rapid.SampledFrom([]bool{true, true, false}).Draw(t, "lastShort")
+	if rapid.IntRange(0, 7).Draw(t, "bigValue") == 0 {
+		p.BigLen = rapid.SampledFrom([]int{1<<20 + 5, 4<<20 + 5, 5 << 20}).Draw(t, "bigLen")
+		blk := rapid.IntRange(0, nb-1).Draw(t, "bigBlock")
+		p.BigAt = blk*128 + rapid.SampledFrom([]int{0, 5, 126, 127, 127}).Draw(t, "bigPos")
+		if p.BigAt >= p.N {
+			p.BigAt = p.N - 1
+		}
+	}
 	return p
 }
 
@@ -402,6 +444,10 @@ func (p BlocksParams) Batch(sc *Scenario) Batch {
 		} else if p.StoreAll > 0 && i%p.StoreAll == 0 && !(last && p.LastShort) {
 			fa.Store = true
 			fa.Value = "1"
+		}
+		if p.BigLen > 0 && i == p.BigAt {
+			fa.Store = true
+			fa.Value = strings.Repeat("0123456789abcdef", p.BigLen/16+1)[:p.BigLen]
 		}
 		b[i].Fields = append(b[i].Fields, fa)
 		if p.ValPos[blk] == pos && p.TwoVals {
@@ -430,6 +476,7 @@ type WideParams struct {
 	EmptyTermPer int    // >0: docs with i%EmptyTermPer==1 also list the empty term (freq 2) in field "a"
 	DenseName    string // name of the dense term ("dense" or "dense2": merge inputs whose dense terms differ)
 	GapField     int    // >0: doc-value field "b" occurs only in document 3 and in documents >= GapField: whole 1024-document doc-value chunks without any value
+	CrossTerm    bool   // field "a" also lists term "zzlast" (its last term in byte order) in every second document, and the doc-value field "b" lists only that term: the first term of one field equals the last term of the field before it, with other cardinalities
 	ALo, AHi     int    // AHi>0: field "a" occurs only in documents ALo <= i < AHi: a doc-value field (the first in field order) that ends, or starts, in the middle of the segment while others go on
 	DenseExact   int    // >0: the dense term occurs in exactly the first DenseExact documents that have field "a" (an exact multiple of 1024: the boundary of the adaptive chunk-count formula)
 }
@@ -454,6 +501,9 @@ func GenWide(t *rapid.T) WideParams {
 			p.GapField = p.N - 2
 		}
 	}
+	if p.GapField > 0 {
+		p.CrossTerm = rapid.Bool().Draw(t, "crossTerm")
+	}
 	if p.N > 1030 && rapid.IntRange(0, 2).Draw(t, "aWindow") == 0 {
 		p.ALo = rapid.SampledFrom([]int{0, 0, 200, 1024, 1030}).Draw(t, "aLo")
 		p.AHi = rapid.SampledFrom([]int{250, 1024, 1100, 2048, p.N - 3}).Draw(t, "aHi")
@@ -477,7 +527,11 @@ func (p WideParams) Batch(sc *Scenario) Batch {
 	denseSoFar := 0
 	for i := range b {
 		if p.GapField > 0 && (i == 3 || (i >= p.GapField && i%2 == 0)) {
-			b[i].Fields = append(b[i].Fields, Field{Name: "b", DV: sc.Schema["b"] != dvNever, Len: 1, Terms: []Term{{T: fmt.Sprintf("g%d", i%7), Freq: 1}}})
+			bt := fmt.Sprintf("g%d", i%7)
+			if p.CrossTerm {
+				bt = "zzlast"
+			}
+			b[i].Fields = append(b[i].Fields, Field{Name: "b", DV: sc.Schema["b"] != dvNever, Len: 1, Terms: []Term{{T: bt, Freq: 1}}})
 		}
 		if p.NoFieldPer > 0 && i%p.NoFieldPer == 1 {
 			if p.SecondDV {
@@ -516,6 +570,10 @@ func (p WideParams) Batch(sc *Scenario) Batch {
 			fa.Terms = append(fa.Terms, tm)
 			fa.Len += 2
 		}
+		if p.CrossTerm && i%2 == 0 {
+			fa.Terms = append(fa.Terms, Term{T: "zzlast", Freq: 1})
+			fa.Len++
+		}
 		b[i].Fields = append(b[i].Fields, fa)
 		if p.RepeatA > 0 && i%p.RepeatA == 0 && len(fa.Terms) > 0 && strings.HasPrefix(fa.Terms[0].T, "dense") {
 			// a multi-valued field: the same term again in a second instance of the field
@@ -538,6 +596,7 @@ type CountsParams struct {
 	HugeAt     []int   // documents whose field "a" also lists term "big"
 	HugeFreq   []int64 // with these frequencies
 	OtherField bool    // the remaining documents carry field "b"
+	NameLen    int     // >1: the field is named "a" + padding up to this length (name lengths around 128: the width boundary of the name-length varint, and of any fixed-size window over a field record)
 }
 
 var hugeFreqs = []int64{1 << 7, 1<<14 - 1, 1 << 21, 1 << 28, 1<<35 - 1, 1 << 42, 1 << 49, 1<<56 - 1, 1 << 56, 1<<56 + 3, 1 << 60, 1<<61 - 1}
@@ -551,7 +610,18 @@ func GenCounts(t *rapid.T) CountsParams {
 		p.HugeFreq = append(p.HugeFreq, rapid.SampledFrom(hugeFreqs).Draw(t, "hugeFreq"))
 	}
 	p.OtherField = rapid.Bool().Draw(t, "otherField")
+	if rapid.Bool().Draw(t, "longName") {
+		p.NameLen = rapid.SampledFrom([]int{100, 110, 113, 115, 118, 120, 121, 122, 123, 124, 125, 126, 127, 128, 129, 200, 255, 256, 257}).Draw(t, "nameLen")
+	}
 	return p
+}
+
+// FieldName is the name of the counted field.
+func (p CountsParams) FieldName() string {
+	if p.NameLen <= 1 {
+		return "a"
+	}
+	return "a" + strings.Repeat("x", p.NameLen-1)
 }
 
 func (p CountsParams) String() string { return fmt.Sprintf("counts%+v", countsPlain(p)) }
@@ -567,7 +637,7 @@ func (p CountsParams) Batch(sc *Scenario) Batch {
 			}
 			continue
 		}
-		f := Field{Name: "a", Len: 1, DV: sc.Schema["a"] == dvAlways, Terms: []Term{{T: fmt.Sprintf("t%d", i%3), Freq: 1}}}
+		f := Field{Name: p.FieldName(), Len: 1, DV: sc.Schema["a"] == dvAlways, Terms: []Term{{T: fmt.Sprintf("t%d", i%3), Freq: 1}}}
 		for k, at := range p.HugeAt {
 			if at == i {
 				f.Terms = append(f.Terms, Term{T: "big", Freq: int(p.HugeFreq[k])})
@@ -659,18 +729,28 @@ type SparseParams struct {
 	IDs  bool // every 512th document has an _id term
 }
 
-var SparseModes = []uint32{1, 1, 2, 3, 5, 16}
+var SparseModes = []uint32{1, 2, 2, 3, 5, 16}
 
 func GenSparse(t *rapid.T) SparseParams {
-	p := SparseParams{N: rapid.SampledFrom([]int{4096, 4097, 4100, 8193, 9000, 12289, 20481, 66000}).Draw(t, "sparseN")}
+	p := SparseParams{N: rapid.SampledFrom([]int{4096, 4097, 4100, 8193, 9000, 12289, 20481, 66000, 131075, 131080, 131080, 140000, 140000, 196700, 262200}).Draw(t, "sparseN")}
 	seen := map[int]bool{}
-	add := func(d int) {
+	add1 := func(d int) {
 		if d >= 0 && d < p.N && !seen[d] {
 			seen[d] = true
 			p.Hits = append(p.Hits, d)
 		}
 	}
+	add := func(d int) {
+		add1(d)
+		if rapid.Bool().Draw(t, "hitPair") {
+			add1(d ^ 1) // its neighbour inside the same chunk of size 2 (and of every larger even size)
+		}
+	}
 	add(rapid.IntRange(0, 3).Draw(t, "firstHit"))
+	// two neighbouring documents near the end: one chunk (of any even size) with two postings, in the highest-numbered chunks
+	tail := p.N - 1 - rapid.IntRange(0, 5).Draw(t, "tailHit")
+	add1(tail)
+	add1(tail ^ 1)
 	nh := rapid.IntRange(2, 9).Draw(t, "nHits")
 	for i := 0; i < nh; i++ {
 		switch rapid.IntRange(0, 2).Draw(t, "hitKind") {
@@ -679,7 +759,7 @@ func GenSparse(t *rapid.T) SparseParams {
 		case 1:
 			add(p.N - 1 - rapid.IntRange(0, 5).Draw(t, "hitFromEnd"))
 		default:
-			add(rapid.SampledFrom([]int{4095, 4096, 4097, 8191, 8192, 8193, 65535, 65536}).Draw(t, "hitBoundary") + rapid.IntRange(-1, 1).Draw(t, "hitJitter"))
+			add(rapid.SampledFrom([]int{4095, 4096, 4097, 8191, 8192, 8193, 65535, 65536, 131071, 131072, 131074, 262143}).Draw(t, "hitBoundary") + rapid.IntRange(-1, 1).Draw(t, "hitJitter"))
 		}
 	}
 	sort.Ints(p.Hits)
